@@ -23,7 +23,7 @@ fn spec(t: Tier) -> Spec {
     Spec {
         id: "C12",
         level: "exploration",
-        rule: format!("pattern = sequence of atoms from {:?} (literals incl. regex metacharacters, * ?, backslash escapes, well-formed bracket expressions with negation/range/class/leading ]/escaped ]/inner [, stray [ ] !); subject = every non-empty string of <= k characters over {:?}. -lname: one directory of symbolic links whose targets are all the subjects; -name: files named by the '/'-free subjects; -path: the same files, pattern prefixed by the literal directory; -ilname/-iname/-ipath with case folding. Slices: {}; plus every pattern of <= 2 atoms given to -iname and to -name in the same expression. For each (pattern, subject) the real find's selection must equal fnmatch(): glibc fnmatch(3) (C locale, flags 0 / FNM_CASEFOLD) and the reference matcher written from the statement must agree, otherwise the pair is counted as oracle-undecided and not judged. evaluation = (primary, pattern, subject); non-trivial = pattern containing a special atom (not only literals)", ATOMS, SUBJ.iter().map(|c| (*c as char).to_string()).collect::<Vec<_>>(), t.pick("-lname atoms<=3 x k<=3 and 12-atom sub-alphabet<=3 x k<=3; other primaries atoms<=2 x k<=3", "-lname atoms<=4 x k<=3, atoms<=3 x k<=4, sub-alphabet<=5 x k<=3; other five primaries atoms<=3 x k<=3")),
+        rule: format!("pattern = sequence of atoms from {:?} (literals incl. regex metacharacters, * ?, backslash escapes, well-formed bracket expressions with negation/range/class/leading ]/escaped ]/inner [, stray [ ] !); subject = every non-empty string of <= k characters over {:?}. -lname: one directory of symbolic links whose targets are all the subjects; -name: files named by the '/'-free subjects; -path: the same files, pattern prefixed by the literal directory; -ilname/-iname/-ipath with case folding. Slices: {}; plus every pattern of <= 2 atoms given to -iname and to -name in the same expression; plus -name/-iname on starting points spelled N, ./N, N/, N//, N/., N/.., ., .., N/./., N/../N (subject = last path component as given). For each (pattern, subject) the real find's selection must equal fnmatch(): glibc fnmatch(3) (C locale, flags 0 / FNM_CASEFOLD) and the reference matcher written from the statement must agree, otherwise the pair is counted as oracle-undecided and not judged. evaluation = (primary, pattern, subject); non-trivial = pattern containing a special atom (not only literals)", ATOMS, SUBJ.iter().map(|c| (*c as char).to_string()).collect::<Vec<_>>(), t.pick("-lname atoms<=3 x k<=3 and 12-atom sub-alphabet<=3 x k<=3; other primaries atoms<=2 x k<=3", "-lname atoms<=4 x k<=3, atoms<=3 x k<=4, sub-alphabet<=5 x k<=3; other five primaries atoms<=3 x k<=3")),
         bound: json!({"atoms": ATOMS.len(), "sub_atoms": SUB_ATOMS.len(), "subject_alphabet": SUBJ.len()}),
         assumptions: vec![
             "ASCII only (glibc's C locale is bytewise)".into(),
@@ -357,6 +357,10 @@ fn slices(t: Tier) -> Vec<(Mode, Vec<String>, usize)> {
 fn run(ctx: &mut Ctx) {
     let mut job = 0u64;
     let mut world: Option<World> = None;
+    if ctx.shard == 0 {
+        let _ = std::fs::create_dir(ctx.sbx.join("N"));
+        roots_slice(ctx);
+    }
     // mixed slice first (patterns of <= 2 atoms, subjects <= 2|3)
     {
         let k = ctx.tier.pick(2, 3);
@@ -460,6 +464,53 @@ fn mixed_batch(ctx: &mut Ctx, w: &World, pats: &[String]) {
     }
 }
 
+/// -name/-iname on starting points: the subject is the last component of the starting point as
+/// given ('.' and '..' are components; trailing slashes are not).
+fn roots_slice(ctx: &mut Ctx) {
+    let roots = ["N", "./N", "N/", "N//", "N/.", "N/..", ".", "..", "N/./.", "N/../N"];
+    let pats = [".", "..", "N", "n", "*", "?", "??", "N*", ".*", "[.]", "[.][.]", "w", "*.", "\\."];
+    for root in roots {
+        let trimmed = root.trim_end_matches('/');
+        let subject = if trimmed.is_empty() { "/" } else { trimmed.rsplit('/').next().unwrap() };
+        for (prim, fold) in [("-name", false), ("-iname", true)] {
+            let mut argv: Vec<String> = vec![root.into(), "-maxdepth".into(), "0".into(), "(".into()];
+            for (k, p) in pats.iter().enumerate() {
+                if k > 0 {
+                    argv.push(",".into());
+                }
+                argv.extend([prim.to_string(), p.to_string(), "-printf".to_string(), format!("L{k}\\n")]);
+            }
+            argv.push(")".into());
+            let args: Vec<&str> = argv.iter().map(|s| s.as_str()).collect();
+            let out = run_find(&args);
+            if out.code != Ok(0) {
+                ctx.rep.violation(&format!("C12 {prim} on a starting point: non-zero status / panic"), format!("find {:?}\n{}", argv, out.brief()), json!({"prop":"C12","mode":"roots","root":root}));
+                continue;
+            }
+            let text = String::from_utf8_lossy(&out.out).to_string();
+            for (k, p) in pats.iter().enumerate() {
+                let Ok(parsed) = g::parse(p.as_bytes()) else { continue };
+                let want = g::matches(&parsed, subject.as_bytes(), fold);
+                let (pc, sc) = (CString::new(*p).unwrap(), CString::new(subject).unwrap());
+                if g::libc_fnmatch(&pc, &sc, fold) != Some(want) {
+                    continue;
+                }
+                let got = text.lines().any(|l| l == format!("L{k}"));
+                ctx.rep.evaluations += 1;
+                ctx.rep.nontrivial += 1;
+                if got != want {
+                    let kind = if root.ends_with("/.") || root.ends_with("..") || root == "." { "ending in . or .." } else if root.ends_with('/') { "with a trailing slash" } else { "plain" };
+                    ctx.rep.violation(
+                        &format!("C12 {prim} on a starting point {kind}: subject is not its last path component"),
+                        format!("find {root} -maxdepth 0 {prim} {p:?}: selected={got}; the last component of {root:?} is {subject:?}, fnmatch says {want}"),
+                        json!({"prop":"C12","mode":"roots","root":root}),
+                    );
+                }
+            }
+        }
+    }
+}
+
 fn xok_take() -> u64 {
     XOK.with(|x| x.replace(0))
 }
@@ -468,6 +519,10 @@ fn replay(case: &Value, ctx: &mut Ctx) -> Option<String> {
     let k = case["k"].as_u64()? as usize;
     let w = build(ctx, k).ok()?;
     let mode = Mode::from(case["mode"].as_str()?).unwrap_or(Mode::Name);
+    if case["mode"] == "roots" {
+        roots_slice(ctx);
+        return ctx.rep.violations.keys().next().cloned();
+    }
     if case["mode"] == "mixed" {
         mixed_batch(ctx, &w, &[case["pattern"].as_str()?.to_string()]);
         return ctx.rep.violations.keys().next().cloned();
